@@ -7,6 +7,7 @@ import (
 	"go/types"
 	"math/bits"
 	"morlockverif/checker/internal/core"
+	"regexp"
 	"sort"
 	"strings"
 
@@ -994,7 +995,13 @@ func c06Queries(e *c06env) {
 		good := len(callsIAB) == 1
 		if good {
 			a := callsIAB[0].Common().Args
-			good = pathExpr(a[0]) == "p" && pathExpr(a[1]) == "c" && pathExpr(a[2]) == "sq" && pathExpr(a[3]) == "global:AllPieces"
+			// forwards its own receiver, colour and square (whatever they are called) with the full piece list
+			same := func(v ssa.Value, prm *ssa.Parameter) bool {
+				var defs []ssa.Value
+				resolveDefs(v, map[ssa.Value]bool{}, &defs)
+				return v == ssa.Value(prm) || (len(defs) == 1 && defs[0] == ssa.Value(prm))
+			}
+			good = len(a) == 4 && len(ia.Params) == 3 && same(a[0], ia.Params[0]) && same(a[1], ia.Params[1]) && same(a[2], ia.Params[2]) && pathExpr(a[3]) == "global:AllPieces"
 		}
 		r.Check(good, "R06-queries", "board.Position.IsAttacked asks about all piece kinds", c.pos(ia.Pos()), "", "IsAttacked must be IsAttackedBy(c, sq, AllPieces)")
 	}
@@ -1012,7 +1019,10 @@ func c06Queries(e *c06env) {
 		}
 		king, _ := constVal(c.P, "pkg/board", "King")
 		r.Check(good && king == 6, "R06-queries", "board.Position.IsChecked asks whether the own king's square is attacked", c.pos(ich.Pos()), "", "expected IsAttacked(c, square of pieces[c][King])")
+		saved := in.SymLoopLimit
+		in.SymLoopLimit = 2
 		outs = in.Run(icm, []absint.Value{p, col}, absint.NewState())
+		in.SymLoopLimit = saved
 		bad := ""
 		for _, o := range outs {
 			res, known := absint.Decide(o.St, o.Ret)
@@ -1026,6 +1036,12 @@ func c06Queries(e *c06env) {
 			}
 			if res && !(k1 && chk) {
 				bad = "checkmate reported without check"
+			}
+			if !res && k1 && chk {
+				bad = "'not checkmate' is decided for a side that is in check without asking whether it has a legal move [" + o.St.FactsString() + "]"
+			}
+			if o.Abort {
+				bad = "not decided: " + fmt.Sprint(o.St.Notes)
 			}
 		}
 		r.Check(bad == "" && len(outs) > 0, "R06-queries", "board.Position.IsCheckMate is check and no legal move", c.pos(icm.Pos()), "", bad)
@@ -1074,11 +1090,25 @@ func c06Queries(e *c06env) {
 	}
 	// FindPins: argument discipline
 	{
+		// expressions rendered with the parameters as $0,$1,.. and loop variables lettered in order of
+		// first appearance, so the rule does not depend on what anything is called
+		canon := func(e string) string {
+			for i, p := range fpins.Params {
+				e = regexp.MustCompile(`\b`+regexp.QuoteMeta(paramName(p))+`\b`).ReplaceAllString(e, fmt.Sprintf("$$%d", i))
+			}
+			seen := map[string]string{}
+			return regexp.MustCompile(`phi:\w*`).ReplaceAllStringFunc(e, func(m string) string {
+				if _, ok := seen[m]; !ok {
+					seen[m] = fmt.Sprintf("phi:%c", 'a'+len(seen))
+				}
+				return seen[m]
+			})
+		}
 		var exprs []string
 		for _, blk := range fpins.Blocks {
 			for _, ins := range blk.Instrs {
 				if bo, ok := ins.(*ssa.BinOp); ok && bo.Op == token.AND {
-					exprs = append(exprs, pathExpr(bo))
+					exprs = append(exprs, canon(pathExpr(bo)))
 				}
 			}
 		}
@@ -1087,13 +1117,14 @@ func c06Queries(e *c06env) {
 		bad := ""
 		for _, s := range []struct{ fn, piece string }{{"RookAttackboard", "Rook"}, {"BishopAttackboard", "Bishop"}} {
 			pv, _ := constVal(c.P, "pkg/board", s.piece)
-			base := s.fn + "(Rotated(pos),LastPopSquare(phi:bb))"
-			xray := s.fn + "(Xor(Rotated(pos),LastPopSquare(phi:pins)),LastPopSquare(phi:bb))"
-			att1 := fmt.Sprintf("(Piece(pos,Opponent(side),%d)|Piece(pos,Opponent(side),%d))", queen, pv)
-			att2 := fmt.Sprintf("(Piece(pos,Opponent(side),%d)|Piece(pos,Opponent(side),%d))", pv, queen)
-			cand1 := "((" + xray + "&^" + base + ")&" + att1 + ")"
-			cand2 := "((" + xray + "&^" + base + ")&" + att2 + ")"
-			pins := "(" + base + "&Color(pos,side))"
+			// in the candidate expression the pinned-square variable appears first (a), the target second (b)
+			baseB := s.fn + "(Rotated($0),LastPopSquare(phi:b))"
+			xray := s.fn + "(Xor(Rotated($0),LastPopSquare(phi:a)),LastPopSquare(phi:b))"
+			att1 := fmt.Sprintf("(Piece($0,Opponent($1),%d)|Piece($0,Opponent($1),%d))", queen, pv)
+			att2 := fmt.Sprintf("(Piece($0,Opponent($1),%d)|Piece($0,Opponent($1),%d))", pv, queen)
+			cand1 := "((" + xray + "&^" + baseB + ")&" + att1 + ")"
+			cand2 := "((" + xray + "&^" + baseB + ")&" + att2 + ")"
+			pins := "(" + s.fn + "(Rotated($0),LastPopSquare(phi:a))&Color($0,$1))"
 			if !strings.Contains(all, cand1) && !strings.Contains(all, cand2) {
 				bad = joinNonEmpty(bad, s.piece+"-line pin candidate is not (attacks with the pinned square removed &^ direct attacks) & opponent queen|"+strings.ToLower(s.piece))
 			}
